@@ -799,8 +799,43 @@ class Expander:
         # parameters the callee never assigns and whose argument is a plain name / attribute chain / constant are substituted directly
         stored_in_callee = {n.id for x in body for n in ast.walk(x) if isinstance(n, ast.Name) and isinstance(n.ctx, (ast.Store, ast.Del))}
         direct = {}
+        # an attribute chain is the *location* at call time: it may only stand for the parameter if the callee cannot change that location
+        # (no store to an attribute of that name, no call that is handed / invoked on the object the chain starts from)
+        stored_attrs = {n.attr for x in body for n in ast.walk(x) if isinstance(n, ast.Attribute) and isinstance(n.ctx, (ast.Store, ast.Del))}
+        stored_attrs |= {n.target.attr for x in body for n in ast.walk(x) if isinstance(n, ast.AugAssign) and isinstance(n.target, ast.Attribute)}
+        roots_of_param = {}
+        for p_, v_ in binding.items():
+            if isinstance(v_, ast.AST):
+                d_ = _dotted(v_)
+                if d_:
+                    roots_of_param.setdefault(d_.split(".")[0], set()).add(p_)
+        if self_expr is not None:
+            d_ = _dotted(self_expr)
+            if d_:
+                roots_of_param.setdefault(d_.split(".")[0], set()).add("self")
+
+        def _stable(x_):
+            if not isinstance(x_, ast.Attribute):
+                return True
+            d_ = _dotted(x_)
+            parts = d_.split(".")
+            if set(parts[1:]) & stored_attrs:
+                return False
+            holders = roots_of_param.get(parts[0], set())
+            for st_ in body:
+                for c_ in ast.walk(st_):
+                    if isinstance(c_, ast.Call):
+                        involved = [c_.func.value] if isinstance(c_.func, ast.Attribute) else []
+                        involved += [a_.value if isinstance(a_, ast.Starred) else a_ for a_ in c_.args] + [k_.value for k_ in c_.keywords]
+                        for e_ in involved:
+                            de_ = _dotted(e_)
+                            if de_ and de_.split(".")[0] in holders:
+                                # reading another field of the object as an argument is harmless; the object itself (or a prefix of the chain) is not
+                                if de_.split(".")[0] == de_ or d_.startswith(de_ + "."):
+                                    return False
+            return True
         for p, v in binding.items():
-            simple = lambda x_: isinstance(x_, ast.Constant) or (_dotted(x_) is not None and len(ast.dump(x_)) < 400)
+            simple = lambda x_: isinstance(x_, ast.Constant) or (_dotted(x_) is not None and len(ast.dump(x_)) < 400 and _stable(x_))
             if p not in stored_in_callee and (simple(v) or (isinstance(v, ast.Tuple) and all(simple(x_) for x_ in v.elts))):
                 direct[p] = v
         names_r = dict(names)
